@@ -272,6 +272,54 @@ def real_runs(rep, rng, tier):
                     rep.violation("DynamicsData.time_slice does not select the steps inside the time window", case)
         rep.count(1)
         rep.nontrivial(("real", k, adaptive))
+    # a run in which updates are refused and retried with smaller steps: the time step RECORDED for a step (per-step record,
+    # frame times, Solution.times) must be the one the accepted update was computed with
+    rdev = meshes.make_device(rng, holes=0, terminals=0, max_edge_length=1.1, probe_points=False)
+    retried_total = [0]
+    for dt0 in (8.0, 50.0):
+        used, rows = {}, []
+
+        def before(solver, state, kw, used=used):
+            if "patched" not in used:
+                used["patched"] = True
+                orig_sps = solver.solve_for_psi_squared
+
+                def sps(**k):
+                    out = orig_sps(**k)
+                    used["n"] = used.get("n", 0) + 1
+                    if out is not None:
+                        used["dt"] = float(k["dt"])
+                    return out
+                solver.solve_for_psi_squared = sps
+            used["n"] = 0
+
+        def on_step_r(solver, state, kw, res, used=used, rows=rows):
+            rows.append((float(res.dt), used.get("dt"), used.get("n", 0)))
+
+        with tempfile.TemporaryDirectory(prefix="pyt_c05r_") as td:
+            opts = runs.make_options(td, solve_time=3 * dt0, dt_init=dt0, dt_max=dt0 * (1 + 1e-9), adaptive=True, save_every=2)
+            try:
+                sol, _ = runs.traced_solve(rdev, opts, A=0.0, currents=None, eps=lambda r: -1.0 if r[0] < 0 else 1.0,
+                                           on_step=on_step_r, before_step=before)
+            except Exception as e:  # noqa: BLE001
+                rep.violation(f"tdgl.solve raised {type(e).__name__}: {e}"[:200], {"dt_init": dt0, "run": "retried steps"})
+                continue
+            case = {"run": "retried steps", "dt_init": dt0, "updates": len(rows), "retried_updates": sum(1 for r_ in rows if r_[2] > 1)}
+            bad = [i for i, (rec_, use_, _) in enumerate(rows) if use_ is not None and rec_ != use_]
+            if bad:
+                rep.violation("the time step recorded for a step is not the time step the accepted update was computed with (after a "
+                              "refusal and retry)", {**case, "step": bad[0], "recorded": rows[bad[0]][0], "used": rows[bad[0]][1]})
+            tt = np.concatenate([[0.0], np.cumsum([u_ for _, u_, _ in rows])])
+            want_steps = sorted(set(range(0, len(rows) + 1, 2)) | {len(rows)})
+            if len(sol.times) != len(want_steps) or np.max(np.abs(np.asarray(sol.times) - tt[want_steps])) > 1e-9 * tt[-1]:
+                rep.violation("frame times are not the sums of the time steps actually taken (run with retried steps)",
+                              {**case, "times": np.asarray(sol.times).tolist()[:5], "expected": tt[want_steps].tolist()[:5]})
+            retried_total[0] += case["retried_updates"]
+        rep.count(1)
+        rep.nontrivial(("real-retried", dt0))
+    if retried_total[0] == 0:
+        rep.not_shown("the retried-steps runs did not retry any update (generator too weak)", {"dt_init": [8.0, 50.0]})
+    rep.coverage["real_run_retried_updates"] = retried_total[0]
     # environment form: one directory per job, the same RELATIVE output name in each, the working directory changes after every
     # solve: each solution's frames, labels and times must stay those of its own run
     import os
